@@ -500,6 +500,35 @@ static std::vector<pid_t> other_tids() {
   return out;
 }
 
+// bytes pending on every inotify fd of this process (the service keeps its fd private)
+static long inotify_pending() {
+  long total = 0;
+  DIR* d = opendir("/proc/self/fd");
+  if (!d) {
+    return 0;
+  }
+  while (auto* de = ::readdir(d)) {
+    int fd = atoi(de->d_name);
+    if (fd <= 2) {
+      continue;
+    }
+    char lnk[64], buf[128];
+    snprintf(lnk, sizeof lnk, "/proc/self/fd/%d", fd);
+    ssize_t n = ::readlink(lnk, buf, sizeof buf - 1);
+    if (n > 0) {
+      buf[n] = 0;
+      if (strstr(buf, "inotify")) {
+        int avail = 0;
+        if (ioctl(fd, FIONREAD, &avail) == 0) {
+          total += avail;
+        }
+      }
+    }
+  }
+  closedir(d);
+  return total;
+}
+
 static Json::Value run_tick(Oomd::FsDropInService* svc, Oomd::Engine::Engine& engine, Oomd::OomdContext& ctx) {
   size_t ev0;
   {
@@ -643,7 +672,7 @@ static int drv_watch(int argc, char** argv) {
           all_idle = true;
         }
       }
-      if (all_idle && ticks_done.load() >= t0 + 2) {
+      if (all_idle && inotify_pending() == 0 && ticks_done.load() >= t0 + 2) {
         // two more full ticks passed while the watcher was idle; check again that it is still idle
         bool still = false;
         for (pid_t t : other_tids()) {
@@ -651,7 +680,7 @@ static int drv_watch(int argc, char** argv) {
             still = true;
           }
         }
-        if (still) {
+        if (still && inotify_pending() == 0) {
           quiet = true;
           break;
         }
